@@ -10,15 +10,21 @@ namespace Rain.Loop
 
 /-- The part of a step after the handler: workers and the parked piece message. -/
 theorem step_after_handle (s : St) (p : Parked) (kn : Nat → Bool) (op : Op)
-    (h : Sound0 (handle { s with sto := [], mayStart := [], closedDl := [], mayStartI := false } p kn op).1.1) :
+    (h : Sound0 (handle { s with sto := [], mayStart := [], closedDl := [], mayStartI := false } p kn op).1.1)
+    (hw : WrOK (handle { s with sto := [], mayStart := [], closedDl := [], mayStartI := false } p kn op).1.1) :
     Adv (handle { s with sto := [], mayStart := [], closedDl := [], mayStartI := false } p kn op).1.1
       (step s p kn op).1.st := by
   unfold step
-  have a2 := runWorkers_adv 12 _ h
+  have a2 := runWorkers_adv 12 _ h hw
   dsimp only
   split
-  · exact a2.trans (deliverParked_adv _ _ (h.adv a2))
+  · exact a2.trans (deliverParked_adv _ _ (h.adv a2) (runWorkers_wrOK 12 _ hw))
   · exact a2
+
+/-- `WrOK` of the state the handler leaves. -/
+theorem handle_wrOK0 (s : St) (p : Parked) (kn : Nat → Bool) (op : Op) (hw : WrOK s) :
+    WrOK (handle { s with sto := [], mayStart := [], closedDl := [], mayStartI := false } p kn op).1.1 :=
+  handle_wrOK _ p kn op (by wr_frame hw)
 
 def Op.isCorrupt : Op → Bool
   | .mutate _ (.corrupt _) => true
@@ -34,9 +40,9 @@ theorem handle_mutate_wsound (s : St) (p : Parked) (kn : Nat → Bool) (f : Opti
 
 /-- **The weak soundness invariant is preserved by every event except a corruption of bytes.** -/
 theorem step_wsound (s : St) (p : Parked) (kn : Nat → Bool) (op : Op) (hop : op.isCorrupt = false)
-    (h : WSound s) : WSound (step s p kn op).1.st := by
+    (h : WSound s) (hw : WrOK s) : WSound (step s p kn op).1.st := by
   cases hm : op.isMutate
-  · exact h.adv (step_adv s p kn op hm h.zero)
+  · exact h.adv (step_adv s p kn op hm h.zero hw)
   · -- a deletion or restoration of files
     have h0 : WSound { s with sto := [], mayStart := [], closedDl := [], mayStartI := false } :=
       ⟨h.cfg, h.bad, h.ws, h.pad⟩
@@ -45,21 +51,21 @@ theorem step_wsound (s : St) (p : Parked) (kn : Nat → Bool) (op : Op) (hop : o
       have hhow : ∀ off, how ≠ .corrupt off := by
         intro off he; subst he; simp [Op.isCorrupt] at hop
       have h1 := handle_mutate_wsound _ p kn f how hhow h0
-      exact h1.adv (step_after_handle s p kn _ h1.zero)
+      exact h1.adv (step_after_handle s p kn _ h1.zero (handle_wrOK0 s p kn _ hw))
     | _ => simp [Op.isMutate] at hm
 
-theorem dstep_wsound (sp : St × Parked) (e : Ev) (hop : e.op.isCorrupt = false) (h : WSound sp.1) :
+theorem dstep_wsound (sp : St × Parked) (e : Ev) (hop : e.op.isCorrupt = false) (h : WSound sp.1) (hw : WrOK sp.1) :
     WSound (dstep sp e).1 := by
   unfold dstep
-  exact ((step_wsound sp.1 sp.2 e.known e.op hop h).adv (reconcile_adv _ _)).adv (reconcileIdl_adv _ _)
+  exact ((step_wsound sp.1 sp.2 e.known e.op hop h hw).adv (reconcile_adv _ _)).adv (reconcileIdl_adv _ _)
 
 theorem drun_wsound (evs : List Ev) (sp : St × Parked) (hop : ∀ e ∈ evs, e.op.isCorrupt = false)
-    (h : WSound sp.1) : WSound (drun sp evs).1 := by
+    (h : WSound sp.1) (hw : WrOK sp.1) : WSound (drun sp evs).1 := by
   induction evs generalizing sp with
   | nil => exact h
   | cons e evs ih =>
     exact ih _ (fun e' he' => hop e' (List.mem_cons_of_mem _ he'))
-      (dstep_wsound sp e (hop e (List.mem_cons_self ..)) h)
+      (dstep_wsound sp e (hop e (List.mem_cons_self ..)) h hw) (dstep_wrOK sp e hw)
 
 /-- With every file present the weak invariant is the strong one. -/
 theorem WSound.bits_of_files {s : St} (h : WSound s) (hfe : FilesExist s) :
@@ -177,26 +183,26 @@ theorem handle_mutate_padInv (s : St) (p : Parked) (kn : Nat → Bool) (f : Opti
 
 /-- **Every event keeps the invariant** — any op (mutations and corruptions of files included), any
 parameters, any parked message. -/
-theorem step_padInv (s : St) (p : Parked) (kn : Nat → Bool) (op : Op) (h : PadInv s) :
+theorem step_padInv (s : St) (p : Parked) (kn : Nat → Bool) (op : Op) (h : PadInv s) (hw : WrOK s) :
     PadInv (step s p kn op).1.st := by
   cases hm : op.isMutate
-  · exact h.adv (step_adv s p kn op hm h.zero)
+  · exact h.adv (step_adv s p kn op hm h.zero hw)
   · have h0 : PadInv { s with sto := [], mayStart := [], closedDl := [], mayStartI := false } :=
       h.of_eq ⟨h.zero.cfg, h.zero.bad⟩ rfl rfl rfl rfl
     cases op with
     | mutate f how =>
       have h1 := handle_mutate_padInv _ p kn f how h0
-      exact h1.adv (step_after_handle s p kn _ h1.zero)
+      exact h1.adv (step_after_handle s p kn _ h1.zero (handle_wrOK0 s p kn _ hw))
     | _ => simp [Op.isMutate] at hm
 
-theorem dstep_padInv (sp : St × Parked) (e : Ev) (h : PadInv sp.1) : PadInv (dstep sp e).1 := by
+theorem dstep_padInv (sp : St × Parked) (e : Ev) (h : PadInv sp.1) (hw : WrOK sp.1) : PadInv (dstep sp e).1 := by
   unfold dstep
-  exact ((step_padInv sp.1 sp.2 e.known e.op h).adv (reconcile_adv _ _)).adv (reconcileIdl_adv _ _)
+  exact ((step_padInv sp.1 sp.2 e.known e.op h hw).adv (reconcile_adv _ _)).adv (reconcileIdl_adv _ _)
 
-theorem drun_padInv (evs : List Ev) (sp : St × Parked) (h : PadInv sp.1) : PadInv (drun sp evs).1 := by
+theorem drun_padInv (evs : List Ev) (sp : St × Parked) (h : PadInv sp.1) (hw : WrOK sp.1) : PadInv (drun sp evs).1 := by
   induction evs generalizing sp with
   | nil => exact h
-  | cons e evs ih => exact ih _ (dstep_padInv sp e h)
+  | cons e evs ih => exact ih _ (dstep_padInv sp e h hw) (dstep_wrOK sp e hw)
 
 theorem dstep_cfg (sp : St × Parked) (e : Ev) : (dstep sp e).1.cfg = sp.1.cfg := by
   unfold dstep; simp
@@ -205,6 +211,11 @@ theorem drun_cfg (evs : List Ev) (sp : St × Parked) : (drun sp evs).1.cfg = sp.
   induction evs generalizing sp with
   | nil => rfl
   | cons e evs ih => exact (ih _).trans (dstep_cfg sp e)
+
+/-- A freshly added torrent without a held write result satisfies `WrOK`. -/
+theorem InitLike.wrOK {s : St} (h : InitLike s) (hw : NoWritten s) : WrOK s :=
+  ⟨fun w a b => (by rw [(hw w a).1] at b; cases b), fun w a => (hw w a).2,
+    fun _ => ⟨h.loaded, h.allocator, h.verifier, h.acceptor, h.peers⟩⟩
 
 theorem InitLike.padInv {s : St} (h : InitLike s) : PadInv s where
   zero := ⟨h.cfg, h.bad⟩
